@@ -55,7 +55,7 @@ structure ScrW where
 /-- effect of an op on the library side, with the commands it sends to the terminal -/
 def ScrW.step (c : DrawCfg) (wd : ScrW) : ScrOp → ScrW × List Cmd
   | .setContent x y m comb st => ({ wd with s := { wd.s with cells := wd.s.cells.setContent c.rw x y m comb st } }, [])
-  | .fill r st => ({ wd with s := { wd.s with cells := wd.s.cells.fill r st } }, [])
+  | .fill r st => ({ wd with s := { wd.s with cells := wd.s.cells.fillV c.fillZW c.rw r st } }, [])
   | .setStyle st => ({ wd with s := if wd.s.fini then wd.s else { wd.s with style := st } }, [])
   | .showCursor x y => ({ wd with s := { wd.s with cursorx := x, cursory := y } }, [])
   | .setCursorStyle cs cc => ({ wd with s := { wd.s with cursorStyle := cs, cursorColor := cc } }, [])
